@@ -187,6 +187,10 @@ def run_validator(prog, f, fields, value, loaded, size=None):
 
 
 def run(prog, rep):
+    from rules import c18 as _c18
+    rep.rule('R17.7', 'the "loaded" flag that reaches the validators: optional / unique_ptr / shared_ptr loaders return false on every path that '
+                      'leaves the wrapper empty (explicit null, failed load) - Required() fails for a field that holds nothing', floor=6)
+    _c18.check_wrapper_results(prog, rep, 'R17.7')
     rep.rule('R17.1', 'VisitArgs applies the visitor to every validator once, in declaration order; the visitor forwards a message to AddValidationError', floor=8)
     rep.rule('R17.2', 'AddValidationError: append for an existing path, one-element list for a new path; early throw when the number of failing '
                       'fields reaches maxValidationErrors (> 0)', floor=3)
